@@ -84,4 +84,42 @@ def oracle (c : Call) (bansBefore : List Nat) (cacheBefore : List Lru.Entry) (o 
     else []
   c0 ++ c1 ++ c2 ++ c3 ++ c4 ++ c5 ++ c6 ++ c7
 
+/-- one of several overlapping callers: its call and what it got back
+(`result = .err "nilnil"`: neither a block nor an error) -/
+structure Caller where
+  call   : Call
+  result : ObsResult
+  prog   : List Progress      -- the handler's answers in the download made for its inv (if any)
+deriving Repr
+
+/-- C06 for overlapping `GetBlock` calls whose downloads are all answered with
+the same script and verdict, none of the requested blocks being cached before.
+Per caller: the outcome is a valid requested block XOR a (non-nil) error; a
+caller of a download that cannot succeed fails; a caller of a download that
+must succeed gets the block.  Globally: bans and new cache entries are
+justified by some caller's download. -/
+def oracleConc (cs : List Caller) (bansBefore : List Nat) (cacheBefore : List Lru.Entry)
+    (bansAfter : List Nat) (cacheAfter : List Lru.Entry) (cacheOther : List Nat) : List String :=
+  let per := cs.foldl (fun acc c =>
+    let o : Obs := { result := c.result, prog := c.prog, bans := bansAfter, cache := cacheAfter, cacheOther := cacheOther }
+    let tags := (oracle c.call bansBefore cacheBefore o).filter (fun t => t != "innocent-banned" && t != "cached-unverified")
+    let goods := c.call.resps.filter (good c.call.target)
+    let mustFail := c.call.verdict != .nil || goods.isEmpty
+    let nn := match c.result with
+      | .err "nilnil" => ["nil-block-nil-error"]
+      | .ret _ _ _ _ => if mustFail then ["caller-of-failed-download-did-not-fail"] else []
+      | .err _ => []
+    acc ++ tags ++ nn) []
+  let dl := fun (c : Caller) => c.call.resps.take c.prog.length
+  let c4 := if bansAfter.any (fun p => !bansBefore.contains p &&
+      !cs.any (fun c => (dl c).any (fun r => bannable c.call.target r && r.peer == p)))
+    then ["innocent-banned"] else []
+  let c5 := if cacheAfter.any (fun e => !cacheBefore.any (fun b => b.key == e.key && b.vid == e.vid) &&
+      !cs.any (fun c => e.key == keyOf c.call.target c.call.base &&
+        (match c.result with
+         | .ret rid _ _ _ => rid == e.vid
+         | .err _ => false) && c.call.resps.any (fun r => good c.call.target r && r.rid == e.vid)))
+    then ["cached-unverified"] else []
+  per ++ c4 ++ c5
+
 end Neutrino.GetBlock
